@@ -225,6 +225,45 @@ func bigPart(w *vc.Writer, r *vc.Rand) {
 	}
 }
 
+func bigWsPart(w *vc.Writer, r *vc.Rand) {
+	// the same sizes over grpc-websockets: a WebSocket message is 1 flow-control byte + 5 header bytes + payload, so the
+	// message is larger than the payload it carries - frames at the limit must still arrive; over the limit (which this transport does not enforce itself) a frame is either
+	// delivered whole or refused with an error, never cut and never dropped silently
+	for _, d := range []int64{1<<22 - 8, 1<<22 - 6, 1<<22 - 5, 1<<22 - 1, 1 << 22, 1<<22 + 1, 1<<22 + 4096, 1 << 16} {
+		conn := vfake.NewConn()
+		conn.Script = []vfake.RespItem{{Kind: vfake.KEOF, NeedHalfClose: true}}
+		b := webbridge.NewGRPCWebSocketBridge(dummyRouter(conn), webbridge.GRPCWebBridgeOpts{Logger: bridgelog.Discard()})
+		srv := httptest.NewServer(b)
+		dl := websocket.Dialer{HandshakeTimeout: 5 * time.Second, Subprotocols: []string{"grpc-websockets"}}
+		ws, _, err := dl.Dial("ws"+strings.TrimPrefix(srv.URL, "http")+"/pkg.Svc/Method", nil)
+		delivered, st := int64(-1), -1
+		if err == nil {
+			ws.WriteMessage(websocket.BinaryMessage, []byte("x-a: 1\r\n"))
+			p := payload(r, int(d))
+			ws.WriteMessage(websocket.BinaryMessage, append([]byte{0}, lpm(0, uint32(len(p)), p)...))
+			ws.WriteMessage(websocket.BinaryMessage, []byte{1})
+			ws.SetReadDeadline(time.Now().Add(5 * time.Second))
+			for {
+				_, data, err := ws.ReadMessage()
+				if err != nil {
+					break
+				}
+				if s := trailerStatus(data); s >= 0 {
+					st = s
+				}
+			}
+			ws.Close()
+		}
+		srv.Close()
+		conn.Lock()
+		if len(conn.SentBytes) > 0 {
+			delivered = int64(len(conn.SentBytes[0]))
+		}
+		conn.Unlock()
+		w.Case(vc.L{d}, vc.L{delivered, st}, true)
+	}
+}
+
 func wsPart(w *vc.Writer, r *vc.Rand) {
 	n := vc.Scale(150, 5000)
 	for i := 0; i < n; i++ {
@@ -384,6 +423,8 @@ func main() {
 	switch os.Args[2] {
 	case "frames":
 		framesPart(w, r)
+	case "bigws":
+		bigWsPart(w, r)
 	case "big":
 		bigPart(w, r)
 	case "ws":
